@@ -234,7 +234,7 @@ def jobs_c01(tier, seed):
 
 
 HANDOVER = 'handover-2rev,handover-3rev,handover-3rev-annot,delegated-handover,local-to-delegated,rolledout-handover,handover-cpnone,handover-ifnoctrl'
-ROLLOUT = 'single-2phase,single-2phase-cel,single-3phase,delegated-mixed,sliced,rolledout-delegated,paused-start,single-mapped,delegated-mapped'
+ROLLOUT = 'single-2phase,single-2phase-cel,single-3phase,delegated-mixed,sliced,sliced-late,rolledout-delegated,paused-start,single-mapped,delegated-mapped'
 TEARDOWN = 'rolledout-2phase,rolledout-delegated,rolledout-handover,single-2phase,delegated-mixed,handover-2rev,sliced'
 DEPLOY = 'deploy,deploy-limit1,deploy-limit0,deploy-rolledout,deploy-limit1-ghost,deploy-midarchived'
 
